@@ -97,6 +97,7 @@ mut('C16', 'class-properties-unsorted', G, "            for prop in sorted(node.
     note='property order then follows the runtime dump, which is an input: deterministic, and independent of hash seed and arrival order; must NOT be flagged', expect=0)
 mut('C16', 'class-interfaces-unsorted', G, "                for iface in sorted(node.interfaces):", "                for iface in node.interfaces:",
     note='order then follows the runtime dump (an input); must NOT be flagged', expect=0)
+mut('C16', 'D6-reintroduced-include-order', T, "        for include in sorted(parser.get_namespace().includes):", "        for include in parser.get_namespace().includes:")
 mut('C16', 'cached-dep-loses-packages', T, "        if not uninstalled:\n            for pkg in parser.get_namespace().exported_packages:", "        if not uninstalled and fresh:\n            for pkg in parser.get_namespace().exported_packages:",
     note='two-site mutant: packages of a dependency only registered when it was parsed afresh; they only feed the pkg-config call, never the output, so this is equivalent with respect to C16 and must NOT be flagged', expect=0)
 M[-1]['also'] = [(T, "        parser = None\n        if self._cachestore is not None:\n            parser = self._cachestore.load(filename)\n        if parser is None:", "        parser = None\n        fresh = False\n        if self._cachestore is not None:\n            parser = self._cachestore.load(filename)\n        if parser is None:\n            fresh = True")]
